@@ -16,18 +16,25 @@ def env(e): return [str(len(e))] + [t for k, v in e.items() for t in [hexs(k)] +
 def optenv(e): return ["-"] if e is None else ["+"] + env(e)
 
 def export(x):
-    if isinstance(x, str): return [hexs(x), "-"]
-    k, v = list(x.items())[-1]        # a map entry with several keys keeps the last one (utils.rs)
-    return [hexs(k), hexs(v)]
+    k, v = x
+    return [hexs(k), hopt(v)]
+def exports(l):
+    """a plain name exports that variable; a map exports each of its entries (utils.rs into_specs)"""
+    if l is None: return None
+    out = []
+    for x in l:
+        if isinstance(x, str): out.append((x, None))
+        else: out += list(x.items())
+    return out
 
 def rule(r):
     return [hexs(r["name"]), hexs(r["cmd"]), hopt(r.get("in")), hopt(r.get("out")), hopt(r.get("gcc_deps")),
             hopt(r.get("rspfile")), hopt(r.get("rspfile_content")), hopt(r.get("pool")), hopt(r.get("description"))] + \
-           optlst(r.get("export"), export) + [b(r.get("always", False)), b(r.get("shareable", r.get("sharable", True)))]
+           optlst(exports(r.get("export")), export) + [b(r.get("always", False)), b(r.get("shareable", r.get("sharable", True)))]
 
 def task(t):
     return lst(t["cmd"]) + optlst(t.get("required_vars")) + optlst(t.get("required_modules")) + \
-           optlst(t.get("export"), export) + [b(t.get("build", True)), hopt(t.get("workdir"))]
+           optlst(exports(t.get("export")), export) + [b(t.get("build", True)), hopt(t.get("workdir"))]
 def named_task(kv): return [hexs(kv[0])] + task(kv[1])
 
 FIELDS = ["from", "joiner", "prefix", "suffix", "start", "end"]
